@@ -481,6 +481,11 @@ def find_group_cohorts(
         bitmask = bitmask[..., present_labels_mask]
         chunks_per_label = chunks_per_label[present_labels_mask]
 
+    if len(present_labels) == 0:
+        # no label is present in any chunk: there is nothing to split into cohorts,
+        # nor anything to prefer blockwise for.
+        return "map-reduce", {}
+
     label_chunks = {
         present_labels[idx].item(): bitmask.indices[slice(bitmask.indptr[idx], bitmask.indptr[idx + 1])]
         for idx in range(bitmask.shape[LABEL_AXIS])
